@@ -423,6 +423,52 @@ def attribution_block(binpath, res, seed, n):
             res.inconclusive.append(f"attribution positive control rejected ({m['mode']}): {o.get('verify')}")
 
 
+def in_memory_table(binpath, res, seed, n):
+    """a layout VALUE (not a text): built with the public builders, its key table re-keyed in memory through the public
+    field - the entries of two keys change places - then signed by the owner and handed to the verifier as it is.  A link
+    made by the key now filed under the functionary's identifier, relabelled with that identifier, counts for nothing:
+    a signature attributed to X is checked against the key whose identifier is X"""
+    rng = common.rng_for(seed, PROP, 80)
+    W = scen.World(binpath)
+    pool = ["ed2", "ed3", "edp1", "ec-b", "ed5"]
+    plans, reqs = [], []
+    for i in range(n):
+        ka, km = rng.sample(pool, 2)
+        mode = rng.choice(["control", "swapped_table_relabelled_link", "swapped_table_honest_link"])
+        layout = scen.mk_layout(W, [ka, km], [scen.mk_step("build", 1, [W.kid(ka)], [], [["ALLOW", "*"]], [["ALLOW", "*"]])], [])
+        plans.append((mode, ka, km, layout, len(reqs)))
+        reqs += [(layout, ["ed0"], "new"), (pipeline.leaf_link("build", 0), [ka], "new"), (pipeline.leaf_link("build", 0), [km], "new")]
+    wires = scen.sign_all(binpath, reqs, nproc=1)
+    cases = []
+    for mode, ka, km, layout, b in plans:
+        if mode == "control":
+            files = {f"build.{W.pfx(ka)}.link": scen.dumps(wires[b + 1])}
+            bim = {"doc": layout, "signers": ["ed0"]}
+            exp = "accept"
+        else:
+            lk = copy.deepcopy(wires[b + 2])
+            if mode == "swapped_table_relabelled_link":
+                lk["signatures"][0]["keyid"] = W.kid(ka)
+            files = {f"build.{W.pfx(ka)}.link": scen.dumps(lk)}
+            bim = {"doc": layout, "signers": ["ed0"], "mem_edit": "rekey_swap"}
+            exp = "reject"
+        c = scen.verify_case(wires[b], [[W.kid("ed0"), W.pub("ed0")]], files, meta={"mode": "in_memory:" + mode, "expect": exp})
+        c["build_in_memory"] = bim
+        cases.append(c)
+    obs = common.run_batch(binpath, cases)
+    for c, o in zip(cases, obs):
+        if scen.harness_failed(o) or o["runs"][0]["v"] == "build_err":
+            res.inconclusive.append(f"in-memory layout case failed in the executor: {str(o)[:300]}")
+            continue
+        ok = o["runs"][0]["v"] == "ok"
+        m = c["meta"]
+        res.note([c["layout"], sorted(c["files"].items()), m["mode"]], True, cls=[f"alias_e2e:{m['mode']}", "alias_e2e_observed:" + ("accept" if ok else "reject")])
+        if ok and m["expect"] == "reject":
+            res.violate(f"aliased-key-counted:{m['mode']}", f"a link made by the key filed (in memory) under the functionary's identifier was counted for it ({m['mode']})", c, o, "reject")
+        if not ok and m["expect"] == "accept":
+            res.inconclusive.append(f"in-memory positive control rejected: {o['runs'][0].get('e')}")
+
+
 def main(ctx):
     res = common.Result()
     mats = pool_materials()
@@ -438,6 +484,7 @@ def main(ctx):
     table_checks(ctx.bin, res, ctx.seed, 300 if not ctx.thorough else 6000)
     alias_e2e(ctx.bin, res, ctx.seed, 200 if not ctx.thorough else 4000)
     attribution_block(ctx.bin, res, ctx.seed, 240 if not ctx.thorough else 4000)
+    in_memory_table(ctx.bin, res, ctx.seed, 60 if not ctx.thorough else 1000)
     return common.finish(
         PROP, ctx.tier, ctx.seed, res, t0=ctx.t0,
         rule="pool keys (10 ed25519 incl. 2 made by OpenSSL, 3 P-256, 4 RSA 2048/3072/4096; thorough: +120 fresh OpenSSL keys) x "
@@ -447,7 +494,7 @@ def main(ctx):
         assumptions=["OpenSSL's SubjectPublicKeyInfo encodings are the standards-conformant reference", "olpc_canon + SHA-256 (Python) is the independent key-id computation"],
         required=["keytype:ed25519", "keytype:ecdsa", "keytype:rsa", "path:ed25519:spki", "path:ed25519:pk8", "path:ecdsa:spki",
                   "path:rsa:pem", "path:rsa:json", "spki_reexport_identical:rsa", "spki_reexport_identical:ed25519",
-                  "spki_reexport_identical:ecdsa", "key_table:parsed", "alias_e2e:control", "alias_e2e:sig_labelled_k1", "alias_e2e:both_authorised", "attribution:control", "attribution:control_alt", "attribution:labelled_other_key",
+                  "spki_reexport_identical:ecdsa", "key_table:parsed", "alias_e2e:control", "alias_e2e:sig_labelled_k1", "alias_e2e:both_authorised", "alias_e2e:in_memory:control", "alias_e2e:in_memory:swapped_table_relabelled_link", "attribution:control", "attribution:control_alt", "attribution:labelled_other_key",
                   "attribution:labelled_other_key_both_authorised", "attribution:labelled_other_description",
                   "attribution:labelled_own_checked_against_other_description",
                   "alias_e2e_observed:accept", "alias_e2e_observed:reject"],
